@@ -110,3 +110,41 @@ Definition input_form (a : argsite) : alias_mode :=
   end.
 (* get_stoichiometries / get_stoichiometries_of_variable fill in the computed coefficients on a deep copy of the cached table *)
 Definition stoich_queries_copy : bool := true.
+(* what a mutator body does with the memoised cache: the cache-building methods of Model it mentions (nested modelled
+   mutators excluded) and "_cache" when it reads self._cache; the decorator clears BEFORE the body runs *)
+Definition mutator_cache_uses (m : method) : list string :=
+  match m with
+  | M_add_parameter => []
+  | M_remove_parameter => []
+  | M_update_parameter => []
+  | M_scale_parameter => ["_cache"%string; "_create_cache"%string]
+  | M_make_parameter_dynamic => []
+  | M_add_variable => []
+  | M_remove_variable => []
+  | M_update_variable => []
+  | M_make_variable_static => []
+  | M_add_derived => []
+  | M_update_derived => []
+  | M_remove_derived => []
+  | M_add_reaction => []
+  | M_update_reaction => []
+  | M_remove_reaction => []
+  | M_add_readout => []
+  | M_remove_readout => []
+  | M_add_surrogate => []
+  | M_update_surrogate => []
+  | M_remove_surrogate => []
+  | M_add_data => []
+  | M_update_data => []
+  | M_remove_data => []
+  end.
+Definition batch_cache_uses (b : batch) : list string :=
+  match b with
+  | B_add_parameters => []
+  | B_remove_parameters => []
+  | B_update_parameters => []
+  | B_scale_parameters => []
+  | B_add_variables => []
+  | B_remove_variables => []
+  | B_update_variables => []
+  end.
